@@ -339,6 +339,17 @@ pub struct MiscCase {
 }
 
 fn gen_float_text(d: &mut D) -> String {
+    // std's float parsing takes no surrounding white space
+    if d.ratio(1, 8) {
+        let core = format!("{}.{}", d.range(0, 99), d.range(0, 99));
+        return match d.below(5) {
+            0 => format!(" {}", core),
+            1 => format!("{} ", core),
+            2 => format!("{}\n", core),
+            3 => format!("\t{}", core),
+            _ => " inf".to_string(),
+        };
+    }
     match d.below(12) {
         0 => "NaN".into(),
         1 => "inf".into(),
